@@ -1,7 +1,7 @@
 """C22 Connection event timing and supervision follow the connection parameters (validation structure only)."""
 from .lib.match import *
 
-SELECT = r'^bluetoe::link_layer::delta_time::ppm$|^bluetoe::link_layer::link_layer::(check_timing_paremeters|parse_timing_parameters_from_connect_request|parse_timing_parameters_from_connection_update_request|adv_received|timeout|setup_next_connection_event|handle_pending_ll_control)$'
+SELECT = r'^bluetoe::link_layer::delta_time::ppm$|^bluetoe::link_layer::link_layer::(sleep_clock_accuracy|check_timing_paremeters|parse_timing_parameters_from_connect_request|parse_timing_parameters_from_connection_update_request|adv_received|timeout|setup_next_connection_event|handle_pending_ll_control)$'
 UNITS = lambda u: u in ('w_inst_ll', 'lib_delta_time') or u.startswith('t_link_layer_ll_connecting') or u.startswith('t_link_layer_ll_connection')
 LL = 'bluetoe::link_layer::link_layer::'
 META = {
@@ -19,7 +19,7 @@ def run(chk, facts, tier):
     chk.rule('fields-parsed', 'both parse functions store all timing fields from the PDU body before validating, and return the validation result', floor=2)
     chk.rule('enter-only-if-valid', 'state_ = connecting only if channels_.reset(..) && parse_timing_parameters_from_connect_request(..); connection_changed only if the update parameters validate, otherwise disconnect', floor=2)
     chk.rule('supervision', 'timeout(): the next event is planned only while time_since_last_event < connection_timeout_ (and, while connecting, fewer than 6 intervals passed); otherwise force_disconnect()', floor=1)
-    chk.rule('window-widening', 'setup_next_connection_event widens start and end by ppm(cumulated_sleep_clock_accuracy_) of the elapsed time; the accuracy is the sum of the central\'s and the own sleep clock accuracy', floor=2)
+    chk.rule('window-widening', 'setup_next_connection_event widens start and end by ppm(cumulated_sleep_clock_accuracy_) of the elapsed time; the accuracy is the sum of the central\'s and the own sleep clock accuracy', floor=3)
     chk.rule('ppm-no-narrow-overflow', 'delta_time::ppm: every product is evaluated in 64 bit, or dominating tests bound the operands so that the product fits the operation\'s width', floor=1)
     for fn in variants(facts, 'bluetoe::link_layer::delta_time::ppm', chk):
         muls = [n for n in fn.body.walk() if n.k == 'BinaryOperator' and n.o == '*']
@@ -41,6 +41,33 @@ def run(chk, facts, tier):
                 ok = ub < (1 << w) if w else False
                 detail = 'the product %s is computed in %d bit but can reach %d: the window widening wraps around for long intervals between events' % (n.text()[:50], w, ub)
             chk.instance('ppm-no-narrow-overflow', fn, '%s in %d bit' % (n.text()[:50], w), ok, '' if ok else detail, node=n, key='mul ' + n.text()[:30])
+    # the central's announced sleep clock accuracy: table against the specification
+    import json as _json, os as _os
+    from .lib.facts import VERIF as _V
+    sca = _json.load(open(_os.path.join(_V, 'spec', 'll_timing.json')))['sca_ppm_upper']['values']
+    for fn in variants(facts, LL + 'sleep_clock_accuracy', chk):
+        body = fn.params[0]['n']
+        tabs = [d for d in fn.body.find(lambda n: n.k == 'VarDecl') if d.c and [x for x in d.c[0].walk() if x.k == 'IntegerLiteral']]
+        r = fn.returns()
+        v = strip_casts(ret_value(r[0])) if len(r) == 1 else None
+        ok_idx = False
+        vals = None
+        if v is not None and v.k == 'ArraySubscriptExpr' and len(tabs) == 1 and is_name(v.c[0], tabs[0].n):
+            vals = [x.v for x in tabs[0].c[0].walk() if x.k == 'IntegerLiteral']
+            i = strip_casts(v.c[1])
+            b = as_binop(i)
+            if b and b[0] == '&' and cval(b[2]) == 7:
+                sh = as_binop(b[1])
+                ok_idx = bool(sh) and sh[0] == '>>' and cval(sh[2]) == 5 and strip_casts(sh[1]).k == 'ArraySubscriptExpr' and is_name(strip_casts(sh[1]).c[0], body) and cval(strip_casts(sh[1]).c[1]) == 33
+        chk.require(vals is not None, 'sleep_clock_accuracy: return table[ index ] with a constant table not recognised')
+        if vals is None:
+            continue
+        low = [(i, a, b) for i, (a, b) in enumerate(zip(vals, sca)) if a < b] if len(vals) == 8 else [(-1, len(vals), 8)]
+        ok = ok_idx and not low
+        chk.instance('window-widening', fn, 'SCA table %s indexed by (body[33] >> 5) & 7' % vals, ok,
+                     '' if ok else ('the SCA field is not taken from bits 5..7 of body[33]' if not ok_idx else
+                                    'SCA %d is taken as %d ppm, the specification allows the central up to %d ppm: the receive window is narrower than the combined accuracy requires, the central\'s packet can fall outside of it' % low[0]),
+                     key='sca table')
     for fn in variants(facts, LL + 'check_timing_paremeters', chk):
         rets = fn.returns()
         if not chk.require(len(rets) == 1, 'check_timing_paremeters left single-conjunction form'):
